@@ -39,12 +39,12 @@ type Session struct {
 	timeout int // ms
 	nq      int
 	// script of the current path (for cross-checking on other solvers)
-	script []string
-	gen    int // incremented on every watchdog restart
-	depth  int  // decision levels currently pushed
-	shared int  // decisions shared with the previous path
-	quiet  bool // inside the shared part: commands are recorded but not sent
-	fresh  bool
+	script  []string
+	gen     int  // incremented on every watchdog restart
+	depth   int  // decision levels currently pushed
+	shared  int  // decisions shared with the previous path
+	quiet   bool // inside the shared part: commands are recorded but not sent
+	fresh   bool
 	noShare bool
 }
 
